@@ -756,7 +756,23 @@ class Executor:
             v = self.operand(frame, rv[1])
             return Agg('array', None, [deep_copy(v) for _ in range(n.v)])
         if k == 'closure':
-            return Agg('closure', rv[1], [self.operand(frame, o) for _, o in rv[2]], [n for n, _ in rv[2]])
+            ops = [o for _, o in rv[2]]
+            names = [n for n, _ in rv[2]]
+            need = self._closure_upvars(rv[1])
+            if need > len(ops) and ops:
+                # rustc's pretty printer zips the captured *variable* names with the operands and drops the
+                # operands beyond the number of distinct variables (disjoint field captures). The dropped
+                # operands are the consecutive temporaries that follow the last printed one.
+                last = ops[-1][1]
+                if last.proj:
+                    raise Unsupported('closure aggregate with truncated operands: ' + rv[1])
+                for j in range(need - len(ops)):
+                    loc = last.local + 1 + j
+                    if frame.locals[loc] is UNINIT:
+                        raise Unsupported('cannot recover truncated closure operands of ' + rv[1])
+                    ops.append(('move', P(loc, ())))
+                    names.append('_upvar%d' % (len(ops) - 1))
+            return Agg('closure', rv[1], [self.operand(frame, o) for o in ops], names)
         if k == 'adt':
             return self.mk_adt(rv[1], [(n, self.operand(frame, o)) for n, o in rv[2]], rv[3])
         if k == 'len':
@@ -764,6 +780,18 @@ class Executor:
             items, lo, hi = self._indexable(v)
             return Int('usize', hi - lo)
         raise Unsupported('rvalue %r' % (rv,))
+
+    def _closure_upvars(self, name):
+        """number of captured values a closure body accesses (max field index on its env + 1)"""
+        c = self.w.__dict__.setdefault('_upvar_cache', {})
+        if name not in c:
+            fn = self.prog.closures.get(name)
+            n = 0
+            if fn is not None:
+                for m in re.finditer(r'\(\(?\*?_1\)?\.(\d+):', fn.text):
+                    n = max(n, int(m.group(1)) + 1)
+            c[name] = n
+        return c[name]
 
     def mk_adt(self, path, fields, named):
         c = parse_callee(path)
